@@ -273,18 +273,7 @@ func (sf *schemafier) schemafy(attr *expr.AttributeExpr, noref ...bool) *openapi
 		s.Format = string(val.Format)
 	}
 	s.Pattern = val.Pattern
-	if val.ExclusiveMinimum != nil {
-		s.ExclusiveMinimum = val.ExclusiveMinimum
-	}
-	if val.Minimum != nil {
-		s.Minimum = val.Minimum
-	}
-	if val.ExclusiveMaximum != nil {
-		s.ExclusiveMaximum = val.ExclusiveMaximum
-	}
-	if val.Maximum != nil {
-		s.Maximum = val.Maximum
-	}
+	s.SetBounds(val)
 	if val.MinLength != nil {
 		if _, ok := attr.Type.(*expr.Array); ok {
 			s.MinItems = val.MinLength
